@@ -85,7 +85,7 @@ func mkConfig(thorough bool) *config {
 		}
 		c.expands = append(c.expands, []int{2, 2, 2, 2, 2}, []int{6, 6, 0, 0, 0}, []int{0, 0, 0, 0, 5}, []int{5, 0, 0, 0, 0},
 			[]int{1, 0, 1, 0, 1}, []int{4, 4, 4, 4, 4}, []int{1, 2, 3, 4, 5}, []int{5, 4, 3, 2, 1})
-		c.budget = 15 * time.Minute
+		c.budget = 10 * time.Minute
 	}
 	return c
 }
